@@ -29,8 +29,42 @@ func fail(format string, a ...interface{}) {
 	os.Exit(1)
 }
 
+// aliases maps local identifiers that hold the ADDRESS of receiver memory (pool := &alloc.pools[i]) to the field they
+// point into; an access through such a pointer is an access to the receiver's state. Filled per function by
+// collectAliases, consulted by leafField.
+var aliases = map[string]string{}
+
+func collectAliases(body *ast.BlockStmt, recv string) {
+	aliases = map[string]string{}
+	for changed := true; changed; { // to a fixed point: q := &p.next is an alias if p is
+		changed = false
+		ast.Inspect(body, func(n ast.Node) bool {
+			as, ok := n.(*ast.AssignStmt)
+			if !ok || len(as.Lhs) != len(as.Rhs) {
+				return true
+			}
+			for i, r := range as.Rhs {
+				id, ok := as.Lhs[i].(*ast.Ident)
+				if !ok || id.Name == "_" || id.Name == recv {
+					continue
+				}
+				u, ok := r.(*ast.UnaryExpr)
+				if !ok || u.Op != token.AND {
+					continue
+				}
+				if f := leafField(u.X, recv); f != "" && aliases[id.Name] != f {
+					aliases[id.Name] = f
+					changed = true
+				}
+			}
+			return true
+		})
+	}
+}
+
 // leafField returns the last field selected on a chain rooted at the receiver
-// identifier (index expressions are looked through), or "".
+// identifier or at a local pointer into the receiver's state (index expressions
+// are looked through), or "".
 func leafField(e ast.Expr, recv string) string {
 	last := ""
 	for {
@@ -51,6 +85,9 @@ func leafField(e ast.Expr, recv string) string {
 		case *ast.Ident:
 			if x.Name == recv {
 				return last
+			}
+			if _, ok := aliases[x.Name]; ok {
+				return last // a field reached through the pointer; the bare pointer variable itself is a local
 			}
 			return ""
 		default:
@@ -274,6 +311,7 @@ func main() {
 	mutable := map[string]bool{}
 	for _, fd := range targets {
 		recv := fd.Recv.List[0].Names[0].Name
+		collectAliases(fd.Body, recv)
 		ast.Inspect(fd.Body, func(n ast.Node) bool {
 			switch x := n.(type) {
 			case *ast.AssignStmt:
@@ -293,6 +331,7 @@ func main() {
 	total := 0
 	for _, fd := range targets {
 		in := &instr{recv: fd.Recv.List[0].Names[0].Name, mutable: mutable}
+		collectAliases(fd.Body, in.recv)
 		fd.Body.List = in.block(fd.Body.List)
 		total += in.count
 	}
